@@ -101,6 +101,7 @@ class Ctx:
         self.known = {}
         self.control = set()
         self.realnames = set()
+        self.shared = {}
         self.datavars = set()
         self.nfresh = 0
         self.solver = z3.Solver()
